@@ -1844,6 +1844,10 @@ VARIANTS = [
     # reference tree, so that they are silent there)
     {"name": "seeded-C15-m2", "rule": "R15.11", "patch": "seeded/C15-m2/patch.diff",
      "expect": "fire"},
+    # the same change as seeded/C15-m2 as a text edit (the patch's context
+    # lines went stale when preprocess.py was repaired for D45)
+    {"name": "seeded-C15-m2-as-text-edit", "rule": "R15.11", "file": PREPROCESS,
+     "expect": "fire", "old": _SPLIT_TODAY, "new": "    lines = src.splitlines()\n"},
     {"name": "trace-source-lines-by-splitlines", "rule": "R15.11",
      "file": "pytype/tools/traces/source.py", "expect": "fire",
      "old": "    self._lines = src.split(\"\\n\")\n",
